@@ -26,7 +26,7 @@ import (
 
 // ---------------------------------------------------------------- scenario
 
-var collideDSeqs = []uint64{1, 12, 256, 257, 65536, 1<<32 + 7}
+var collideDSeqs = []uint64{1, 12, 255, 256, 257, 65536, 1<<32 + 7, 1<<64 - 1}
 
 func scCollide() Scenario {
 	sc := Scenario{Name: "S-collide", GP: GenesisParams{DeploymentMinDeposit: 10, BidMinDeposit: 5, Funds: 100000, StartHeight: 5}}
@@ -36,7 +36,7 @@ func scCollide() Scenario {
 		d uint64
 		g int
 	}
-	deps := []dep{{"T1", 1, 2}, {"T1", 12, 2}, {"T1", 256, 1}, {"T1", 257, 1}, {"T1", 65536, 1}, {"T1", 1<<32 + 7, 1}, {"T2", 1, 1}, {"T2", 12, 1}}
+	deps := []dep{{"T1", 1, 2}, {"T1", 12, 2}, {"T1", 256, 1}, {"T1", 257, 1}, {"T1", 65536, 1}, {"T1", 1<<32 + 7, 1}, {"T1", 255, 1}, {"T2", 1, 1}, {"T2", 12, 1}, {"T2", 1<<64 - 1, 1}}
 	for _, d := range deps {
 		pre = append(pre, aCreateDeployment(d.t, d.d, d.g, 3, 10, noReq))
 	}
@@ -51,7 +51,7 @@ func scCollide() Scenario {
 		bids = append(bids, b)
 		pre = append(pre, aCreateBid(b, 3, 5))
 	}
-	for _, b := range []bidRef{{"T1", 1, 1, 1, "P1"}, {"T1", 12, 1, 1, "P1"}, {"T2", 1, 1, 1, "P1"}, {"T1", 256, 1, 1, "P1"}, {"T1", 1<<32 + 7, 1, 1, "P1"}} {
+	for _, b := range []bidRef{{"T1", 1, 1, 1, "P1"}, {"T1", 12, 1, 1, "P1"}, {"T2", 1, 1, 1, "P1"}, {"T1", 256, 1, 1, "P1"}, {"T1", 1<<32 + 7, 1, 1, "P1"}, {"T2", 1<<64 - 1, 1, 1, "P1"}} {
 		pre = append(pre, aBidOp("CreateLease", b))
 	}
 	pre = append(pre, aNext(1))
@@ -76,6 +76,7 @@ func scCollide() Scenario {
 		aUnsign("U1", "P1", nil, "all"),
 		aCreateCert("T1", "T1", big.NewInt(1)), aCreateCert("T1", "T1", big.NewInt(256)), aCreateCert("T2", "T2", big.NewInt(1)),
 		aRevokeCert("T1", big.NewInt(1)),
+		aCreateCert("T1", "T1", big.NewInt(8)), aCreateCert("T1", "T1", big.NewInt(10)), aRevokeCertSpelled("T1", "010"),
 	)
 	sc.Alphabet = al
 	return sc
